@@ -370,6 +370,12 @@ def conclude(pid, tier, seed, mod, mod_name, names, results, t0):
         with open(os.path.join(ROOT, 'evidence', f'{pid}.json'), 'w') as f:
             json.dump(ev, f, indent=1, default=str)
             f.write('\n')
+        if tier == 'thorough':
+            # kept beside the per-change evidence so that a later quick run does not erase it
+            os.makedirs(os.path.join(ROOT, 'evidence', 'thorough'), exist_ok=True)
+            with open(os.path.join(ROOT, 'evidence', 'thorough', f'{pid}.json'), 'w') as f:
+                json.dump(ev, f, indent=1, default=str)
+                f.write('\n')
 
     print(f'{pid} [{tier}] instances={len(names)} paths={totals["paths"]} queries={totals["queries"]} '
           f'solver={totals["solver_s"]:.1f}s wall={wall:.1f}s obligations={n_dis}/{n_obl} discharged')
